@@ -885,4 +885,5 @@ def rule_TPL(ctx, ext):
 
 def run(ctx):
     ext = extract_tables(ctx)
-    return [rule_ORD(ctx, ext), rule_DUN(ctx, ext), rule_SIG(ctx, ext), rule_TO(ctx), rule_TPL(ctx, ext)]
+    from ..rules import sC28
+    return [rule_ORD(ctx, ext), rule_DUN(ctx, ext), rule_SIG(ctx, ext), rule_TO(ctx), rule_TPL(ctx, ext), sC28.rule_dispatch(ctx)]
